@@ -48,8 +48,9 @@ FLOORS = {
                  "wide_union_terms": 50, "wide_pairs": 16000, "wide_accepts_container_literal_checks": 3000, "generic_pairs": 15000, "generic_accepted_cross_class": 190},
 }
 BARE_GENERICS = (list, dict, set, frozenset, tuple, type, *ty.GEN_VIEWS)
-POOL = universe.U + universe.UG  # bit j of a Term's masks is POOL[j]; the UG part is filled lazily (with_generic_objects)
-NU = len(universe.U)
+EAGER = universe.U + universe.UX  # universe objects + namedtuple instances: masks computed for every term
+POOL = EAGER + universe.UG  # bit j of a Term's masks is POOL[j]; the UG part is filled lazily (with_generic_objects)
+NU = len(EAGER)
 WIDE = 10
 
 
@@ -78,7 +79,7 @@ def make_term(t: Ty, v, text: str) -> Term:
     tm.t, tm.value, tm.text = t, v, text
     memb = nonmemb = memb_l2 = 0
     tm._g = False
-    for j, it in enumerate(universe.U):
+    for j, it in enumerate(EAGER):
         m = ty.member(it.obj, t)
         if m is True:
             memb |= 1 << j
@@ -89,7 +90,7 @@ def make_term(t: Ty, v, text: str) -> Term:
         ty.LENIENT_FIXED_TUPLES = True
         try:
             nonmemb_l2 = 0
-            for j, it in enumerate(universe.U):
+            for j, it in enumerate(EAGER):
                 if ty.member(it.obj, t) is False:
                     nonmemb_l2 |= 1 << j
         finally:
@@ -141,7 +142,7 @@ def direct_terms(ctx):
     from vp import prelude
 
     out = []
-    for it in universe.U:
+    for it in EAGER:
         if it.src in ("len", "ident", "(lambda: 0)"):
             continue
         out.append(make_term(ty.Lit(it.obj), KnownValue(it.obj), f"KnownValue({it.src})"))
@@ -288,6 +289,8 @@ def soundness_mechanism(A: Term, B: Term, u) -> str:
 
     if isinstance(u.obj, frozenset) and B.t.kind == "Lit" and A.t.kind in ("FrozenSet", "Coll", "Iter"):
         return "frozenset-literal-elements-unchecked"
+    if isinstance(u.obj, tuple) and type(u.obj) is not tuple and B.t.kind == "Lit" and A.t.kind in ("VarTuple", "Seq", "Iter", "Coll"):
+        return "tuple-subclass-literal-elements-unchecked"
     if isinstance(u.obj, enum.Enum) and A.t.kind in ("Iter", "Coll", "Seq") and not isinstance(u.obj, (str, bytes, tuple)):
         return "enum-instance-treated-as-iterable"
     if "TypedDict" in B.kinds and A.t.kind in ("Dict", "Map") and isinstance(u.obj, dict):
